@@ -621,9 +621,29 @@ def finding_key(cfg: dict, cand: dict) -> str:
             f"entry={cfg['entry']},lags={cfg['lags']},leads={cfg['leads']},offset={cfg['offset']}:{first}")
 
 
+def default_options_case() -> List[str]:
+    """solve(), solve_period() and solve_t() called WITHOUT options must mean the same options: the defaults in the three
+    signatures agree (a concrete assertion on the real signatures; 'identical ... with the same options' includes the
+    options nobody passes)."""
+    import inspect
+
+    import fsic
+    bad = []
+    sigs = {'solve': inspect.signature(fsic.BaseModel.solve), 'solve_period': inspect.signature(fsic.BaseModel.solve_period),
+            'solve_t': inspect.signature(fsic.BaseModel.solve_t)}
+    base = sigs['solve_t'].parameters
+    for name in ('min_iter', 'max_iter', 'tol', 'offset', 'failures', 'errors', 'catch_first_error'):
+        vals = {k: (sg.parameters[name].default if name in sg.parameters else '<absent>') for k, sg in sigs.items()}
+        if len({repr(v) for v in vals.values() if v != '<absent>'}) > 1 or name not in base:
+            bad.append(f'default of `{name}` differs between the entry points: {vals}')
+    return bad
+
+
 def main() -> int:
     tier = vlib.tier()
     rep = vlib.Report('C05', 'model_checking', tier)
+    for b in default_options_case():
+        rep.violation('defaults:' + b[:60], b, {'case': b})
     run_family(
         rep, configs(tier), TWINS,
         functions=['fsic.core.interfaces.SolverMixin.solve', 'SolverMixin.iter_periods', 'SolverMixin.solve_period',
